@@ -78,7 +78,7 @@ pub enum Mailbox {
 }
 
 #[derive(Clone, Copy, Debug, PartialEq, Eq, Hash, Serialize, Deserialize)]
-pub enum Strategy {
+pub enum RStrat {
     /// `RestartOnly`: the builder's default
     Default,
     Recreate,
@@ -96,7 +96,7 @@ pub enum SpawnSpec {
     /// `DefaultSpawnable::spawn_owning`
     SpawnDefaultOwning,
     /// `hannibal::build(..)....spawn()/spawn_owning()`
-    Build { mailbox: Mailbox, strategy: Strategy, timeout: Option<u32>, fail_on_timeout: bool, owning: bool },
+    Build { mailbox: Mailbox, strategy: RStrat, timeout: Option<u32>, fail_on_timeout: bool, owning: bool },
     /// stream attached; `builder: None` = `spawn_on_stream` / `spawn_owning_on_stream`
     Stream { builder: Option<Mailbox>, owning: bool },
     /// spawn (optionally through the builder) and `register()` as the service of its kind
@@ -121,11 +121,11 @@ impl SpawnSpec {
             _ => Mailbox::Unbounded,
         }
     }
-    pub fn strategy(&self) -> Strategy {
+    pub fn strategy(&self) -> RStrat {
         match self {
             SpawnSpec::Build { strategy, .. } => *strategy,
-            SpawnSpec::Stream { .. } => Strategy::NonRestartable,
-            _ => Strategy::Default,
+            SpawnSpec::Stream { .. } => RStrat::NonRestartable,
+            _ => RStrat::Default,
         }
     }
     pub fn is_stream(&self) -> bool {
